@@ -446,11 +446,11 @@ func (f *fnTrans) applyCall(ins ssa.Instruction, name string, ct *Contract, sig 
 	if len(mods) > 0 {
 		seen := map[string]bool{}
 		again := func(t Term, typ types.Type) {
-			if _, ok := typ.Underlying().(*types.Pointer); !ok || seen[t.S] {
+			if seen[t.S] {
 				return
 			}
 			seen[t.S] = true
-			if inv := f.typeInv(t, typ); inv.S != "true" {
+			if inv := f.finishedInv(t, typ); inv.S != "true" {
 				f.factHere(inv)
 			}
 		}
